@@ -254,7 +254,7 @@ def check_hosvd(case):
         probs.append(("hosvd:exact", "hosvd(X) deviates from X by %.3e" % np.max(np.abs(got - X0))))
     for j, U in enumerate(H.Us):
         G = U.T.dot(U)
-        if np.max(np.abs(G - np.eye(G.shape[0]))) > 1e-12:
+        if G.size and np.max(np.abs(G - np.eye(G.shape[0]))) > 1e-12:
             probs.append(("hosvd:orthonormal", "factor %d does not have orthonormal columns" % j))
             break
     if tuple(U.shape[1] for U in H.Us) != tuple(H.X.shape):
@@ -498,7 +498,7 @@ def check_greedy(case):
     if algo == "gta":
         for j, U in enumerate(Y.Us):
             G = U.T.dot(U)
-            if np.max(np.abs(G - np.eye(G.shape[0]))) > 1e-10:
+            if G.size and np.max(np.abs(G - np.eye(G.shape[0]))) > 1e-10:
                 probs.append(("gta:orthonormal", "basis %d is not orthonormal" % j))
                 break
         if any(U.shape[1] > Rmax for U in Y.Us):
